@@ -85,12 +85,13 @@ func (g *gen) doInstr(ci *cfgInfo, in ssa.Instruction) {
 			r := g.setVal(x, sx(fn, v.S))
 			g.assume(not(sx("=", r.S, "errnil")))
 		case sIface:
-			fn := "box." + sortID(v.Sort)
-			g.declare(fn, fmt.Sprintf("(declare-fun %s (%s) Iface)\n(declare-fun un%s (Iface) %s)", fn, v.Sort, fn, v.Sort))
+			// one boxing function per dynamic type: the same value boxed as two different types (a named
+			// pointer type and its underlying pointer, say) gives two interface values with different tags
+			fn, unfn := g.boxFns(v.Sort, x.X.Type())
 			g.declare("itag", "(declare-fun itag (Iface) Int)")
 			r := g.setVal(x, sx(fn, v.S))
 			// boxed values are non-nil, remember their dynamic type and content
-			g.assume(and(not(sx("=", r.S, "ifnil")), sx("=", sx("itag", r.S), fmt.Sprint(g.w.typeID(x.X.Type()))), sx("=", sx("un"+fn, r.S), v.S)))
+			g.assume(and(not(sx("=", r.S, "ifnil")), sx("=", sx("itag", r.S), fmt.Sprint(g.w.typeID(x.X.Type()))), sx("=", sx(unfn, r.S), v.S)))
 		default:
 			g.freshVal(x)
 		}
@@ -181,6 +182,10 @@ func (g *gen) doInstr(ci *cfgInfo, in ssa.Instruction) {
 		g.unmodelled("select", x.Pos())
 	case *ssa.Send:
 		g.unmodelled("channel send", x.Pos())
+		// a send is an anchor for in-body assertions ("assert before call#k chansend: ..."): what must hold
+		// (a lock held, a flag clear) at the moment the value is handed to the channel
+		g.callOrd["chansend"]++
+		g.anchoredAsserts("chansend", "chansend", g.callOrd["chansend"], false, nil, nil, x.Pos())
 	case *ssa.Go:
 		g.unmodelled("go statement", x.Pos())
 		g.event("go", x.Common(), x.Pos())
@@ -1458,4 +1463,18 @@ func lookupCall(m map[string][]T, name string, ord int64) ([]T, bool) {
 		}
 	}
 	return found, n == 1
+}
+
+
+// boxFns declares and returns the boxing function of a dynamic type (per type: box.<sort>.t<typeID>) and the
+// unboxing function of its sort (per sort: unbox.<sort>).
+func (g *gen) boxFns(sort string, t types.Type) (string, string) {
+	base := "box." + sortID(sort)
+	g.declare(base, fmt.Sprintf("(declare-fun %s (%s) Iface)\n(declare-fun un%s (Iface) %s)", base, sort, base, sort))
+	if t == nil {
+		return base, "un" + base
+	}
+	fn := fmt.Sprintf("%s.t%d", base, g.w.typeID(t))
+	g.declare(fn, fmt.Sprintf("(declare-fun %s (%s) Iface)", fn, sort))
+	return fn, "un" + base
 }
